@@ -47,6 +47,11 @@ CHECKS = {
          "The crash points of every call of the 39-call alphabet in 4 pre-states are enumerated completely (every k in 1..W) and I1-I4 held after each; every restart position of 12 / 400 random histories held against the model, including label-indexed lookups of elements written after the reopen. Thorough additionally SIGKILLs a real child between writes for a third of the calls.",
          "Assumes each top-level KV write is atomic and durable once it returns (the property says so); crash = stop before write k, close, reopen. Trusted: the FaultKV decorator (100 lines) and the invariant checker gq/snapshot.go.",
          "5/C04"),
+ "C16": ("exploration",
+         "runtime differential monitor on complete state: one hostile write per case against a populated graph (gdbi.GraphInterface and gRPC Edit service of a live server in a worker process); the complete state of all graphs is snapshotted before and after and compared with 'before + exactly that element' (success) or 'before' (error); accepted elements are read back by id, traversal and label",
+         "Held on every explored write: ~110 hostile strings x 8 positions x 2 boundaries, 25 property values, 500 / 20000 random position pairs; bystander graph and population unchanged, index invariants intact. Acceptance itself is not judged.",
+         "Trusted: the snapshot function (gq/snapshot.go). Invalid UTF-8 cannot cross gRPC; at the gdbi boundary non-UTF-8 property data is a known finding and excluded from generation.",
+         "5/C16"),
 }
 
 NOT_YET = "check not built yet in this session (design in DESIGN.md section 5); claimed once the monitor exists and is silent on the unchanged tree"
